@@ -33,6 +33,8 @@ type Program struct {
 	deep       bool // deps loaded with syntax
 	allPkgs    []*packages.Package
 	embedders  map[*types.TypeName][]*types.Named
+	roleVar    map[roleKey]*types.Var // role -> the field that plays it under another name / on a sub-struct
+	roleName   map[*types.Var]string  // such a field -> the role's (canonical) name
 }
 
 // Func is a declared function, method or function literal of a repo package.
@@ -153,6 +155,7 @@ func Load(dir string, deep bool, overlay map[string][]byte) (*Program, error) {
 	p.Ext = append(p.Ext, p.All[nRepo:]...)
 	p.All = p.All[:nRepo]
 	sort.Slice(p.All, func(i, j int) bool { return p.All[i].Name < p.All[j].Name })
+	p.resolveRoles()
 	return p, nil
 }
 
@@ -287,6 +290,13 @@ func (p *Program) LookupType(pkgPath, typeName string) *types.TypeName {
 }
 
 func (p *Program) LookupField(pkgPath, typeName, field string) *types.Var {
+	if v := p.plainLookup(pkgPath, typeName, field); v != nil {
+		return v
+	}
+	return p.roleVar[roleKey{pkgPath, typeName, field}]
+}
+
+func (p *Program) plainLookup(pkgPath, typeName, field string) *types.Var {
 	tn := p.LookupType(pkgPath, typeName)
 	if tn == nil {
 		return nil
